@@ -187,28 +187,47 @@ Definition activity_end (ch : chain) (mass A phi1 phi s1 s2 T Tp t : R) : R :=
 Definition activity_rest (a_end T r : R) : R := a_end * Rpower 2 (- r / T).
 
 Theorem activity_end_nonneg : forall ch mass A phi1 phi s1 s2 T Tp t,
-  0 <= mass -> 0 < A -> 0 <= phi1 -> 0 <= phi -> 0 <= s1 -> 0 <= s2 -> 0 < T -> 0 < Tp -> 0 <= t ->
+  0 <= mass -> 0 < A -> 0 <= phi1 -> 0 <= phi -> 0 <= s1 -> 0 <= s2 -> 0 < T -> 0 <= t ->
   (* distinct removal rates (the closed forms have removable singularities where two coincide) *)
   match ch with
   | CAct => rate phi1 s1 <> rate phi s2 + decay_const T
-  | CB => decay_const Tp <> decay_const T
-  | C2n => rate phi1 s1 <> rate phi s2 + decay_const Tp /\ rate phi1 s1 <> decay_const T
+  | CB => 0 < Tp /\ decay_const Tp <> decay_const T
+  | C2n => 0 < Tp /\ rate phi1 s1 <> rate phi s2 + decay_const Tp /\ rate phi1 s1 <> decay_const T
            /\ rate phi s2 + decay_const Tp <> decay_const T
   end ->
   0 <= activity_end ch mass A phi1 phi s1 s2 T Tp t.
 Proof.
-  intros ch mass A phi1 phi s1 s2 T Tp t Hm HA Hp1 Hp Hs1 Hs2 HT HTp Ht Hd.
+  intros ch mass A phi1 phi s1 s2 T Tp t Hm HA Hp1 Hp Hs1 Hs2 HT Ht Hd.
   assert (Hln : 0 < ln 2) by (rewrite <- ln_1; apply ln_increasing; lra).
   assert (Hl : 0 < decay_const T) by (unfold decay_const; apply Rdiv_lt_0_compat; assumption).
-  assert (Hlp : 0 < decay_const Tp) by (unfold decay_const; apply Rdiv_lt_0_compat; assumption).
   assert (Hat : 0 <= atoms mass A).
   { unfold atoms, K_uCi. apply Rmult_le_pos; [apply Rmult_le_pos; lra|]. left. apply Rinv_0_lt_compat. assumption. }
   assert (Hr : forall a b, 0 <= a -> 0 <= b -> 0 <= rate a b).
   { intros a b Ha Hb. unfold rate. apply Rmult_le_pos; [|lra]. apply Rmult_le_pos; [apply Rmult_le_pos; assumption|lra]. }
   unfold activity_end. destruct ch; (apply Rmult_le_pos; [apply Rmult_le_pos; lra|]).
   - apply c1_N2_nonneg; auto.
-  - apply cb_D_nonneg; auto. apply Rmult_le_pos; auto.
-  - destruct Hd as (D1 & D2 & D3). apply c2_N3_nonneg; auto.
+  - destruct Hd as (HTp & D). 
+    assert (Hlp : 0 < decay_const Tp) by (unfold decay_const; apply Rdiv_lt_0_compat; assumption).
+    apply cb_D_nonneg; auto. apply Rmult_le_pos; auto.
+  - destruct Hd as (HTp & D1 & D2 & D3). apply c2_N3_nonneg; auto.
+Qed.
+
+(* single capture: activity does not fall with exposure by more than the depletion of the target *)
+Theorem activity_monotone_up_to_depletion : forall mass A phi1 phi s1 s2 T Tp t1 t2,
+  0 <= mass -> 0 < A -> 0 <= phi1 -> 0 <= s1 -> 0 < T -> 0 <= t1 <= t2 ->
+  rate phi1 s1 <> rate phi s2 + decay_const T ->
+  activity_end CAct mass A phi1 phi s1 s2 T Tp t1 * exp (- rate phi1 s1 * (t2 - t1))
+  <= activity_end CAct mass A phi1 phi s1 s2 T Tp t2.
+Proof.
+  intros mass A phi1 phi s1 s2 T Tp t1 t2 Hm HA Hp1 Hs1 HT Ht Hd.
+  assert (Hln : 0 < ln 2) by (rewrite <- ln_1; apply ln_increasing; lra).
+  assert (Hl : 0 < decay_const T) by (unfold decay_const; apply Rdiv_lt_0_compat; assumption).
+  assert (Hat : 0 <= atoms mass A).
+  { unfold atoms, K_uCi. apply Rmult_le_pos; [apply Rmult_le_pos; lra|]. left. apply Rinv_0_lt_compat. assumption. }
+  assert (Hr : 0 <= rate phi1 s1).
+  { unfold rate. apply Rmult_le_pos; [|lra]. apply Rmult_le_pos; [apply Rmult_le_pos; assumption|lra]. }
+  unfold activity_end. rewrite Rmult_assoc. apply Rmult_le_compat_l; [apply Rmult_le_pos; lra|].
+  apply c1_monotone_up_to_depletion; assumption.
 Qed.
 
 Theorem activity_linear_in_mass : forall ch c mass A phi1 phi s1 s2 T Tp t,
